@@ -315,15 +315,31 @@ def arc_samples(m):
     return [f6_point(g, t) for t in ARC_TS], g["dth"]
 
 
+def _nopoint(v):
+    return None if (isinstance(v, (list, tuple)) and len(v) == 2 and v[0] is None and v[1] is None) else v
+
+
 def seg_diff(obs, mod, tol=1e-9, flags=False):
     """first difference between an observed segment and a model/spec segment, or None"""
     if obs["k"] != mod["k"]:
         return "kind %s vs %s" % (obs["k"], mod["k"])
+    # Point(None, None) (a control point of a move-less fragment whose coordinates were skipped) is "no point"
+    obs = {k: _nopoint(v) for k, v in obs.items()}
     for f in ("start", "end", "c", "c1", "c2"):
         if f in mod or f in obs:
             if not _pt_close(obs.get(f), mod.get(f), tol):
                 return "%s %r vs %r" % (f, obs.get(f), mod.get(f))
     if obs["k"] == "Arc":
+        rxa, rya = abs(mod["rx"]), abs(mod["ry"])
+        chord0 = math.hypot(mod["end"][0] - mod["start"][0], mod["end"][1] - mod["start"][1])
+        mags = [rxa, rya] + [abs(v) for v in mod["start"] + mod["end"]]
+        if rxa != 0 and rya != 0 and (max(rxa, rya) > 1e8 * min(rxa, rya) or chord0 > 1e8 * min(rxa, rya) or max(mags) > 1e100
+                                      or abs(mod.get("rot", 0.0)) > 1e15):
+            # an ellipse 10^8 times longer than wide, radii 10^8 times too small for the chord, coordinates beyond 1e100, or a
+            # rotation beyond 1e15 degrees (no fractional turn left in a double): the centre form of such an arc carries no
+            # significant digit in double precision (cancellation of the order ratio^2 * 2^-53; range reduction of the angle),
+            # so its interior is not compared - kind, start and end were compared above
+            return None
         try:
             want, sweep = arc_samples(mod)
         except Exception as e:
